@@ -119,8 +119,10 @@ struct Book {
 };
 
 // all three encodings must behave alike; returns the char result
+static bool gWide = true;   // sanitizer build, words with 3 deviating fields: char only (see scenDt)
 template <class X> static Res parse3(Book& b, const std::string& sigTarget, const std::string& text) {
 	Res r8 = parseAs<X, char>(text);
+	if (!gWide) { b.n += 1; return r8; }
 	Res r16 = parseAs<X, char16_t>(widen<char16_t>(text)), r32 = parseAs<X, char32_t>(widen<char32_t>(text));
 	b.n += 3;
 	if (!r8.same(r16)) b.viol(sigTarget + "/out=char16_differs_from_char", "'" + text + "': char " + r8.str() + ", char16_t " + r16.str());
@@ -267,42 +269,58 @@ static const char* const kDtBases[4][14] = {
 static void scenDt(bsx::Ctx& c) {
 	int base = c.choose(4, "base");
 	int slice = c.choose(16, "slice");   // balances the partition: every worker enumerates the words, each word is judged in one slice
+	static std::vector<std::vector<const std::string*>> altTab[4];   // per base and field: the alternatives other than the base's own symbol
+	if (altTab[base].empty()) for (size_t fi = 0; fi < gDt.size(); ++fi) { altTab[base].emplace_back(); for (auto& a : gDt[fi].alts) if (a != kDtBases[base][fi]) altTab[base].back().push_back(&a); }
 	std::string text, devs;
 	for (size_t fi = 0; fi < gDt.size(); ++fi) {
-		std::vector<const std::string*> alts;
-		for (auto& a : gDt[fi].alts) if (a != kDtBases[base][fi]) alts.push_back(&a);
+		const auto& alts = altTab[base][fi];
 		int k = c.deviate(static_cast<int>(alts.size()) + 1, gDt[fi].name);
 		if (k == 0) text += kDtBases[base][fi];
 		else { text += *alts[static_cast<size_t>(k - 1)]; devs += std::string(devs.empty() ? "" : "+") + gDt[fi].name; }
 	}
 	if (static_cast<int>(bsx::fnv(text) % 16) != slice) return;
+	if (c.budget > 0 && c.deviations_used() != c.budget) return;   // already judged and committed in the pass with the smaller budget
 	const TextClass tc = cal::classifyDateTime(text);
 	const i128 i64min = -(static_cast<i128>(1) << 63), i64max = (static_cast<i128>(1) << 63) - 1;
 	const char* yearMag = tc.y == i64min ? "year_int64_min" : (tc.y < i64min || tc.y > i64max) ? "year_beyond_int64" : "year_in_int64";
 	// crash signatures (UBSan/ASan) are named by the magnitude class of the year, the only field of unbounded size
 	c.describe(std::string("C15/dt/") + yearMag, "'" + text + "' deviating fields: " + (devs.empty() ? "none" : devs));
 	if (!crossCheck(c, "dt", text, tc)) return;
-	// Sanitizer build only: a year of exactly -2^63 is a known UBSan abort (signed overflow in `Year - 1`); every abort costs a
-	// worker restart, so that class is explored with at most one more deviating field there (the -O2 build runs all of it).
-	if (!kFast && tc.y == i64min && c.deviations_used() > 2) { c.outcome("sanitizer_build_skipped:year_int64_min_with_2plus_other_deviations"); return; }
-	c.nontrivial(text);
+	// Sanitizer build, words with three deviating fields (thorough tier): char only; the -O2 build parses every word in all
+	// three encodings.
+	const bool reduced = !kFast && c.deviations_used() >= 3;
+	const bool risky = tc.y == i64min;
+	gWide = !reduced;
+	if (c.deviations_used() <= 2) c.nontrivial(text);   // the key set is merged in memory: words with three deviations are counted as executions only
 	if (c.deviations_used() == 2 && base == 1 && slice == 3) c.sample("'" + text + "' (" + tc.reason + ") -> 28 time_point types, time_t, tm x 3 encodings");
 	Book b(c);
 	for (int ti = 0; ti < NT; ++ti) withType(ti, [&](auto tag) {
 		using T = decltype(tag);
 		const Tgt t = tgtOf<T>("tp");
-		c.describe(std::string("C15/dt/target=tp/") + t.tag + "/" + yearMag, "'" + text + "'");
+		// the abort for a year of -2^63 happens in code shared by all targets: named (and memoised) by the kind of target only
+		const std::string crashSig = risky ? std::string("C15/dt/target=tp/") + yearMag : std::string("C15/dt/target=tp/") + t.tag + "/" + yearMag;
+		c.describe(crashSig, "'" + text + "' -> time_point<" + t.tag + ">");
+		// crash memo: a year of exactly -2^63 aborts under UBSan (signed overflow in `Year - 1`); once that class has cost a
+		// worker for this target it is not run again in this build (the -O2 build judges all its values)
+		if (risky && !c.enter(bsx::fnv(crashSig))) { b.out("skipped:same_class_aborted_earlier_in_this_run"); return; }
 		Res r = parse3<typename T::TP>(b, std::string("C15/dt/target=tp/") + t.tag + "/class=" + tc.reason, text);
+		if (risky) c.leave();
 		judge(b, "dt", tc, t, r, text);
 	});
-	c.describe(std::string("C15/dt/target=time_t/") + yearMag, "'" + text + "'");
-	judge(b, "dt", tc, kTimeT, parse3<BS::CRawTime>(b, std::string("C15/dt/target=time_t/class=") + tc.reason, text), text);
+	{
+		const std::string crashSig = std::string("C15/dt/target=time_t/") + yearMag;
+		c.describe(crashSig, "'" + text + "'");
+		if (!risky || c.enter(bsx::fnv(crashSig))) { Res r = parse3<BS::CRawTime>(b, std::string("C15/dt/target=time_t/class=") + tc.reason, text); if (risky) c.leave(); judge(b, "dt", tc, kTimeT, r, text); }
+		else b.out("skipped:same_class_aborted_earlier_in_this_run");
+	}
 	c.describe(std::string("C15/dt/target=tm/") + yearMag, "'" + text + "'");
 	judgeTm(b, tc, parse3<tm>(b, std::string("C15/dt/target=tm/class=") + tc.reason, text), text);
 }
 
 // ---------------------------------------------------------------------------------------------------- scenario 1: time_point boundaries
 static void scenDtBound(bsx::Ctx& c) {
+	if (c.budget > 0) return;   // no deviation points here: everything is committed in the first pass
+	gWide = true;
 	int ti = c.choose(NT + 1, "target");
 	int ak = c.choose(14, "anchor_k");     // anchor (min|max) x k = -3..3
 	int dl = c.choose(5, "subunit");       // sub-unit part: 0, 0.4, 0.5, 0.6 of min(unit, 1 s), 1 ns
@@ -321,7 +339,11 @@ static void scenDtBound(bsx::Ctx& c) {
 		c.nontrivial(t.tag + text);
 		if (ak == 7 && dl == 0) c.sample("'" + text + "' -> " + t.kind + "<" + t.tag + ">");
 		Book b(c);
-		judge(b, "dt", tc, t, parse(b, sigT, text), text);
+		const bool risky = V < t.minC * t.U && t.U == DAY_NS && t.minC < -(static_cast<i128>(1) << 62);   // below the minimum of 64-bit days: known UBSan abort
+		if (risky && !c.enter(bsx::fnv(sigT))) { b.out("skipped:same_class_aborted_earlier_in_this_run"); return; }
+		Res r = parse(b, sigT, text);
+		if (risky) c.leave();
+		judge(b, "dt", tc, t, r, text);
 	};
 	if (ti == NT) run(kTimeT, 0, [](Book& b, const std::string& s, const std::string& text) { return parse3<BS::CRawTime>(b, s, text); });
 	else withType(ti, [&](auto tag) { using T = decltype(tag); run(tgtOf<T>("tp"), T::fd, [](Book& b, const std::string& s, const std::string& text) { return parse3<typename T::TP>(b, s, text); }); });
@@ -348,6 +370,7 @@ static std::vector<std::string> magnitudes(const Tgt& t, i128 unitNs, i128 baseV
 	return r;
 }
 
+struct DurField { const char* name; std::string def; std::vector<std::string> alts; };
 static void scenDur(bsx::Ctx& c) {
 	int ti = c.choose(NT, "target");
 	int base = c.choose(3, "base");
@@ -355,63 +378,71 @@ static void scenDur(bsx::Ctx& c) {
 		using T = decltype(tag);
 		const Tgt t = tgtOf<T>("dur");
 		const i128 S = cal::NS_PER_S;
-		DurBase bs;
-		if (base == 0) { bs = DurBase{"", 0, 1, 1, 1, 1, "", false}; }
-		else if (base == 1) bs = decompose("", t.maxC * t.U);
-		else if (t.minC < 0) bs = decompose("-", -t.minC * t.U);
-		else { bs = DurBase{"", 1, 0, 0, 0, 0, "", true}; }   // unsigned: a weeks-based base instead of the minimum
-		// fields in text order; each: default text and alternatives
-		struct F { const char* name; std::string def; std::vector<std::string> alts; };
-		std::vector<F> fs;
-		fs.push_back({"sign", bs.sign, {"", "-", "+", "--", "+-", " "}});
-		fs.push_back({"P", "P", {"p", "", "PP", "2003-02-15T00:00:00Z/P"}});
-		fs.push_back({"weeks", bs.hasW ? i128str(bs.w) : "", magnitudes(t, 604800 * S, bs.w, bs.hasW)});
-		fs.push_back({"days", i128str(bs.d), magnitudes(t, 86400 * S, bs.d, true)});
-		fs.push_back({"days_fraction", "", {".5", ",5"}});
-		fs.push_back({"days_designator", "D", {"d", "Y", "M", "H", "S", "", "X"}});
-		fs.push_back({"T", "T", {"", "t", "TT", " "}});
-		fs.push_back({"hours", i128str(bs.h), magnitudes(t, 3600 * S, bs.h, true)});
-		fs.push_back({"hours_fraction", "", {".5", ",25"}});
-		fs.push_back({"minutes", i128str(bs.m), magnitudes(t, 60 * S, bs.m, true)});
-		fs.push_back({"minutes_designator", "M", {"m", "S", "D", "", "Y"}});
-		fs.push_back({"seconds", i128str(bs.s), magnitudes(t, S, bs.s, true)});
-		fs.push_back({"seconds_fraction", bs.frac, {"", ".0", ".5", ",5", ".4", ".6", ".000000001", ".999999999", ".499999999", ".500000001", ".0000000000", ".1234567890", ".", ".-5", ".5.5", ".4294967297"}});
-		fs.push_back({"seconds_designator", "S", {"s", "", "M", "H", "Z"}});
-		fs.push_back({"trail", "", {" ", " Hello", "\n", "x", "P", "T"}});
+		// the field table of a (target, base) is built once per process
+		static std::map<int, std::vector<DurField>> cache;
+		std::vector<DurField>& fs = cache[ti * 3 + base];
+		if (fs.empty()) {
+			DurBase bs;
+			if (base == 0) { bs = DurBase{"", 0, 1, 1, 1, 1, "", false}; }
+			else if (base == 1) bs = decompose("", t.maxC * t.U);
+			else if (t.minC < 0) bs = decompose("-", -t.minC * t.U);
+			else { bs = DurBase{"", 1, 0, 0, 0, 0, "", true}; }   // unsigned: a weeks-based base instead of the minimum
+			// fields in text order; each: default text and alternatives
+			fs.push_back({"sign", bs.sign, {"", "-", "+", "--", "+-", " "}});
+			fs.push_back({"P", "P", {"p", "", "PP", "2003-02-15T00:00:00Z/P"}});
+			fs.push_back({"weeks", bs.hasW ? i128str(bs.w) : "", magnitudes(t, 604800 * S, bs.w, bs.hasW)});
+			fs.push_back({"days", i128str(bs.d), magnitudes(t, 86400 * S, bs.d, true)});
+			fs.push_back({"days_fraction", "", {".5", ",5"}});
+			fs.push_back({"days_designator", "D", {"d", "Y", "M", "H", "S", "", "X"}});
+			fs.push_back({"T", "T", {"", "t", "TT", " "}});
+			fs.push_back({"hours", i128str(bs.h), magnitudes(t, 3600 * S, bs.h, true)});
+			fs.push_back({"hours_fraction", "", {".5", ",25"}});
+			fs.push_back({"minutes", i128str(bs.m), magnitudes(t, 60 * S, bs.m, true)});
+			fs.push_back({"minutes_designator", "M", {"m", "S", "D", "", "Y"}});
+			fs.push_back({"seconds", i128str(bs.s), magnitudes(t, S, bs.s, true)});
+			fs.push_back({"seconds_fraction", bs.frac, {"", ".0", ".5", ",5", ".4", ".6", ".000000001", ".999999999", ".499999999", ".500000001", ".0000000000", ".1234567890", ".", ".-5", ".5.5", ".4294967297"}});
+			fs.push_back({"seconds_designator", "S", {"s", "", "M", "H", "Z"}});
+			fs.push_back({"trail", "", {" ", " Hello", "\n", "x", "P", "T"}});
+			for (auto& f : fs) { std::vector<std::string> keep; for (auto& x : f.alts) if (x != f.def) keep.push_back(x); f.alts.swap(keep); }   // alternatives exclude the default
+		}
 		std::string text, devs; std::string part[15];
 		for (size_t fi = 0; fi < fs.size(); ++fi) {
-			std::vector<const std::string*> alts;
-			for (auto& a : fs[fi].alts) if (a != fs[fi].def) alts.push_back(&a);
-			int k = c.deviate(static_cast<int>(alts.size()) + 1, fs[fi].name);
-			part[fi] = k == 0 ? fs[fi].def : *alts[static_cast<size_t>(k - 1)];
+			int k = c.deviate(static_cast<int>(fs[fi].alts.size()) + 1, fs[fi].name);
+			part[fi] = k == 0 ? fs[fi].def : fs[fi].alts[static_cast<size_t>(k - 1)];
 			if (k) devs += std::string(devs.empty() ? "" : "+") + fs[fi].name;
 		}
 		// a component whose number is absent is dropped together with its fraction and designator
 		auto comp = [&](int num, int frac, const std::string& des) { return part[num].empty() && (frac < 0 || part[frac].empty()) ? std::string() : part[num] + (frac >= 0 ? part[frac] : std::string()) + des; };
 		text = part[0] + part[1] + comp(2, -1, "W") + comp(3, 4, part[5]) + part[6] + comp(7, 8, "H") + comp(9, -1, part[10]) + comp(11, 12, part[13]) + part[14];
+		if (c.budget > 0 && c.deviations_used() != c.budget) return;   // already judged and committed in the pass with the smaller budget
 		const TextClass tc = cal::classifyDuration(text);
 		// magnitude class of the largest number in the text (crash signatures are named by it, not by the grammar class)
 		const i128 p63 = static_cast<i128>(1) << 63, u64max = (static_cast<i128>(1) << 64) - 1;
-		bool hasEq = false, hasGt = false, hasHuge = false; int riskyDeviated = 0;
+		bool hasEq = false, hasGt = false, hasHuge = false; 
 		for (int fi : {2, 3, 7, 9, 11}) {
 			const std::string& ps = part[fi]; if (ps.empty() || !cal::isDig(ps[0])) continue;
 			size_t q = 0; i128 v; int nd; cal::readNum(ps, q, v, nd);
 			if (v == p63) hasEq = true; else if (v > p63 && v <= u64max) hasGt = true; else if (v > u64max) hasHuge = true;
-			if (v >= p63 && v <= u64max && ps != fs[static_cast<size_t>(fi)].def) ++riskyDeviated;
 		}
 		const char* mag = hasEq ? "eq_2e63" : hasGt ? "gt_2e63" : hasHuge ? "gt_u64" : "lt_2e63";
 		const bool negSign = !part[0].empty() && part[0].back() == '-';
 		const std::string sigT = std::string("C15/dur/target=dur/") + t.tag + "/class=" + tc.reason;
-		c.describe(std::string("C15/dur/target=dur/") + t.tag + (negSign ? "/sign=neg" : "/sign=pos") + "/mag=" + mag, "'" + text + "' deviating fields: " + (devs.empty() ? "none" : devs));
+		// the negation of -2^63 happens in code shared by all targets: named (and memoised) without the target
+		const std::string crashSig = (negSign && hasEq) ? std::string("C15/dur/target=dur/sign=neg/mag=eq_2e63") : std::string("C15/dur/target=dur/") + t.tag + (negSign ? "/sign=neg" : "/sign=pos") + "/mag=" + mag;
+		c.describe(crashSig, "'" + text + "' -> duration<" + t.tag + ">, deviating fields: " + (devs.empty() ? "none" : devs));
 		if (!crossCheck(c, "dur", text, tc)) return;
-		// Sanitizer build only: numbers of 2^63..2^64-1 run into known UBSan aborts (negation of -2^63, overflow when such a
-		// count is scaled to a coarser 64-bit target); every abort costs a worker restart, so these classes are explored there
-		// without further deviating fields other than the sign (the -O2 build runs all of them and checks the values).
-		if (!kFast && (hasEq || hasGt) && c.deviations_used() - riskyDeviated - (part[0] != fs[0].def ? 1 : 0) > 0) { c.outcome("sanitizer_build_skipped:magnitude_ge_2e63_with_other_deviations"); return; }
-		c.nontrivial(t.tag + text);
+		gWide = kFast || c.deviations_used() < 3;   // sanitizer build, three deviating fields: char only
+		if (c.deviations_used() <= 2) c.nontrivial(t.tag + text);
 		if (c.deviations_used() == 2 && ti == 5 && base == 1) c.sample("'" + text + "' (" + tc.reason + ") -> duration<" + t.tag + "> x 3 encodings");
 		Book b(c);
-		judge(b, "dur", tc, t, parse3<typename T::D>(b, sigT, text), text);
+		// crash memo: numbers of 2^63..2^64-1 run into known UBSan aborts (negation of -2^63, overflow when such a count is
+		// scaled to a coarser 64-bit target); once a (target, sign, magnitude class) has cost a worker it is not run again in
+		// this build (the -O2 build judges all its values)
+		const bool risky = hasEq || hasGt;
+		if (risky && !c.enter(bsx::fnv(crashSig))) { b.out("skipped:same_class_aborted_earlier_in_this_run"); return; }
+		Res r = parse3<typename T::D>(b, sigT, text);
+		if (risky) c.leave();
+		judge(b, "dur", tc, t, r, text);
 	});
 }
 
@@ -452,6 +483,7 @@ struct FracJudge {
 };
 
 static void scenFrac(bsx::Ctx& c) {
+	if (c.budget > 0) return;   // no deviation points here: everything is committed in the first pass
 	auto blocks = fracBlocks(c.tier);
 	int bi = c.choose(static_cast<int>(blocks.size()), "block");
 	c.choose(1, "pad");
